@@ -163,6 +163,9 @@ func c01(c *Ctx) {
 		importSibling(c, "C12", "C01.R8", func(rule string) bool { return rule == "C12.R2" || rule == "C12.R1" || rule == "C12.R5" })
 		// R9: a stubbed nil result reaches the caller as the typed zero value of every nilable kind (C09.R1)
 		importSibling(c, "C09", "C01.R9", func(rule string) bool { return rule == "C09.R1" })
+		// R10: a method mock patches the Func of the method resolved under the very name given (C06.R3): a lookup memoised
+		// under a coarser key hands another type's method to the patcher and the intended one keeps running
+		importSibling(c, "C06", "C01.R10", func(rule string) bool { return rule == "C06.R3" })
 	}
 	r.Expl = "Structural clauses the mocking mechanism rests on (the ABI behaviour itself is a run-time fact and is not decided): the word embedded in the entry jump is the func value's data word obtained from the reflect.Value of the replacement (not its code pointer); on every successful path of the installer the patch object holding the replacement is stored in the package-level table under the patched address (the only GC root for a pointer hidden in machine code), and entries are deleted only after their bytes were restored; the patched address is the target's entry (Value.Pointer, the generic-wrapper scan result, or a symbol address) with no arithmetic; every struct that is cast over a runtime object agrees with the toolchain's real type on the offsets and sizes of the fields it touches (amd64 and arm64); the entry-jump template clobbers only the closure-context register (shared with C15's abstract interpretation). (R6) a guard that a mocker records is switched on before the mocker returns, and the wrapper around a patch guard forwards Apply to the patch."
 	r.RuleText = "one obligation per (rule, call site / store / mirror field)"
